@@ -16,7 +16,7 @@ for d in sorted(glob.glob('/verif/seeded/*/')):
         rc, out = sh('git -C /repo apply -3 %spatch.diff' % d)
     if rc != 0:
         print('%-8s PATCH-DOES-NOT-APPLY (tree moved on): %s' % (name, out.strip().splitlines()[-1] if out.strip() else ''))
-        sh('git -C /repo checkout -- . ; git -C /repo reset -q')
+        sh('git -C /repo reset -q; git -C /repo checkout -- .')
         bad += 1
         continue
     try:
